@@ -38,11 +38,11 @@ func die(format string, args ...any) {
 }
 
 type rewriter struct {
-	fset   *token.FileSet
-	info   *types.Info
-	pkg    *types.Package
-	counts map[string]int
-	tmp    int
+	fset    *token.FileSet
+	info    *types.Info
+	pkg     *types.Package
+	counts  map[string]int
+	tmp     int
 	changed bool
 }
 
@@ -271,6 +271,11 @@ func (rw *rewriter) expr(e ast.Expr) ast.Expr {
 			rw.counts["now"]++
 			rw.changed = true
 			return vcall("Now")
+		}
+		if rw.pkgFunc(x, "time", "After") {
+			rw.counts["after"]++
+			rw.changed = true
+			return vcall("After", x.Args...)
 		}
 		if rw.pkgFunc(x, "time", "Until") {
 			rw.counts["until"]++
@@ -672,7 +677,7 @@ func (rw *rewriter) leftovers(f *ast.File) string {
 					}
 					if p == "time" {
 						switch x.Sel.Name {
-						case "After", "Sleep", "AfterFunc", "Tick", "NewTicker":
+						case "Sleep", "AfterFunc", "Tick", "NewTicker":
 							msg = "time." + x.Sel.Name + " is not supported by the rewriter (" + rw.fset.Position(x.Pos()).String() + ")"
 						}
 					}
